@@ -251,3 +251,58 @@ def replay_corpus(r):
 CHECKS['C09'] = c09
 REPLAYERS['opcode-table'] = replay_opcode
 REPLAYERS['bytecode-corpus'] = replay_corpus
+
+
+def c11(prop, pool, verdict, tier, seed):
+    from fin import stmt_dispatch
+    from rtc import prop_c11
+    e1 = run_e1(prop, pool, verdict, tier, seed)
+    fz = run_fuzz(prop, pool, verdict, tier, seed)
+    e3 = stmt_dispatch.check()
+    for f in e3['failures']:
+        rp = write_replay(prop, 'dispatch-' + f['clause'], {'kind': 'stmt-dispatch', 'property': prop,
+                                                             'obligation': 'AST2SCFGTransformer.handle_ast_node::' + f['clause'], 'detail': f})
+        verdict.violation(rp)
+    d = prop_c11.run(pool, tier, seed)
+    by = {}
+    for f in d['fails']:
+        by.setdefault(f['case'].split('@')[0] + ':' + f['kind'], []).append(f)
+    for k, fs in sorted(by.items()):
+        rp = write_replay(prop, 'placement-' + k, {'kind': 'placement', 'property': prop, 'case': fs[0]['case'], 'source': fs[0]['source'],
+                                                   'observed': fs[0]['kind'], 'detail': fs[0]['detail'], 'failing_inputs_in_scope': len(fs)})
+        verdict.violation(rp)
+    cov = coverage_from(e1, fz, 'C11 is decided by a finite, complete case split (E3): the dispatcher\'s if-chain is read from the current source, checked to consist of '
+                        'isinstance(node, ast.X) tests ending in `raise NotImplementedError`, and evaluated against the real class lattice for EVERY subclass of ast.stmt '
+                        'of the running interpreter; every compound handler hands every statement-list field to codegen unconditionally (structural descent), which with '
+                        'structural induction over the tree gives "at any nesting depth" (the induction is stated, not mechanised); each class is also executed on the real '
+                        'dispatcher. Bounded: the placement matrix (statement kind x 9 structural positions) and non-function inputs run through AST2SCFG.')
+    cov['obligations'] += e3['obligations']
+    cov['discharged'] += e3['discharged']
+    cov['finite_domain'] = {'domain': e3['domain'], 'python': e3['python'], 'backend': 'finite-enumeration', 'obligations': e3['obligations']}
+    cov['evaluations'] = d['cases'] + fz['evaluations']
+    cov['distinct_nontrivial'] = d['cases']
+    cov['rule'] = 'every unsupported statement kind expressible in source x {top, if body, else, while body, for body, loop else, after loop, nested two deep, last statement} plus 11 non-function inputs; every case is distinct and non-trivial (contains a compound or unsupported construct)'
+    cov['exhaustive'] = True
+    cov['samples'] = cov['samples'] + e3['samples'][:3] + d['samples'][:2]
+    return 'other', cov, e1['assumptions'] + ['the dispatch depends on the node only through the isinstance tests read from the source (checked structurally)',
+                                             'structural induction over the statement tree is stated, not mechanised',
+                                             'ast.parse of the f-string snippets in handle_for does not raise for a valid target']
+
+
+def replay_placement(r):
+    from rtc import prop_c11
+    res = prop_c11.check_case(r['case'], r['source'])
+    print('replay placement %s: %s' % (r['case'], res))
+    return 1 if res else 0
+
+
+def replay_dispatch(r):
+    from fin import stmt_dispatch
+    bad = [f for f in stmt_dispatch.check()['failures'] if f['clause'] == r['detail']['clause']]
+    print('replay dispatch: %s' % bad)
+    return 1 if bad else 0
+
+
+CHECKS['C11'] = c11
+REPLAYERS['placement'] = replay_placement
+REPLAYERS['stmt-dispatch'] = replay_dispatch
